@@ -21,6 +21,7 @@ import (
 	"net/url"
 	"os"
 	"path/filepath"
+	"sort"
 	"strconv"
 	"strings"
 	"time"
@@ -373,6 +374,62 @@ func main() {
 	client := &http.Client{Timeout: 100 * time.Second, Transport: &http.Transport{DisableKeepAlives: true}}
 	// wallet life-cycles: requests that depend on what earlier ones did (create from a seed of a small pool, then unload /
 	// encrypt / decrypt / derive / recover / create again from the same seed ...), woven into the random requests
+	// ---- first, systematically: every numeric parameter of every read-only query at the ends of its range (alone, the other
+	// numeric parameters small), plain and verbose.  A query is answered whatever the numbers are.
+	numeric := map[string]bool{"seq": true, "start": true, "end": true, "num": true, "n": true, "page": true, "limit": true}
+	extremes := []string{"18446744073709551615", "18446744073709551614", "9223372036854775808", "9223372036854775807", "4611686018427387904", "4294967296", "4294967295", "2147483648"}
+	var sysURIs []string
+	for u := range likely {
+		if !strings.Contains(u, "wallet") {
+			sysURIs = append(sysURIs, u)
+		}
+	}
+	sort.Strings(sysURIs)
+	for _, u := range sysURIs {
+		for _, pn := range likely[u] {
+			if !numeric[pn] {
+				continue
+			}
+			for ei, ex := range extremes {
+				vals := url.Values{}
+				for _, other := range likely[u] {
+					if numeric[other] && other != pn {
+						vals.Set(other, strconv.Itoa(rng.Intn(3)))
+					}
+				}
+				vals.Set(pn, ex)
+				if ei%2 == 1 {
+					for _, other := range likely[u] {
+						if other == "verbose" {
+							vals.Set("verbose", "1")
+						}
+					}
+				}
+				fmt.Fprintln(os.Stderr, "SENDING GET", u, vals.Encode())
+				r := rec{"fn": "http", "uri": u, "method": "GET", "form": "query", "params": vals.Encode(), "atGenesis": atGenesis, "status": 0, "complete": false, "dropped": false, "timeout": false, "err": "", "scenario": false, "systematic": true}
+				t0 := time.Now()
+				resp, err := client.Get("http://" + wd.base + u + "?" + vals.Encode())
+				r["ms"] = int(time.Since(t0) / time.Millisecond)
+				if err != nil {
+					r["err"] = err.Error()
+					if ne, ok := err.(net.Error); ok && ne.Timeout() {
+						r["timeout"] = true
+					} else {
+						r["dropped"] = true
+					}
+				} else {
+					_, rerr := ioutil.ReadAll(resp.Body)
+					resp.Body.Close()
+					r["status"], r["complete"] = resp.StatusCode, rerr == nil
+					if rerr != nil {
+						r["err"] = rerr.Error()
+					}
+				}
+				must(enc.Encode(r))
+				w.Flush()
+			}
+		}
+	}
 	seeds := []string{wd.seed + " s1", wd.seed + " s2", wd.seed + " s3"}
 	lastID, lastSeed, lastPw, scenarioLeft := "", "", "", 0
 	for i := 0; i < count; i++ {
